@@ -10,13 +10,20 @@ Section Control.
   Variables P U : Type.
   Variable invoke : U -> Z -> @ev P -> Z -> option (@inv_result P U).
   Variable etype : P -> Z.              (* event_type of a payload *)
+  Variable metric : U -> Z -> option Z. (* MetricBreakpoint: attribute value of entity [ent]; None = no such entity/attribute *)
   Notation st := (@st P U).
 
-  Inductive bp := BTime (t : Z) (one : bool) | BCount (n : Z) (one : bool) | BType (ty : Z) (one : bool).
+  Inductive bp :=
+  | BTime (t : Z) (one : bool) | BCount (n : Z) (one : bool) | BType (ty : Z) (one : bool)
+  | BMetric (ent op thr : Z) (one : bool).   (* op: 0 gt, 1 ge, 2 lt, 3 le, 4 eq, 5 ne *)
+
+  Definition cmp_op (op v thr : Z) : bool :=
+    if op =? 0 then v >? thr else if op =? 1 then v >=? thr else if op =? 2 then v <? thr
+    else if op =? 3 then v <=? thr else if op =? 4 then v =? thr else negb (v =? thr).
 
   Record ctl := mkCtl { pause_req : bool; steps : option Z; bps : list bp }.
 
-  Definition bp_one (b : bp) : bool := match b with BTime _ o | BCount _ o | BType _ o => o end.
+  Definition bp_one (b : bp) : bool := match b with BTime _ o | BCount _ o | BType _ o | BMetric _ _ _ o => o end.
 
   (** [should_break] on the context after a delivery of [e]. *)
   Definition should_break (s : st) (e : @ev P) (b : bp) : bool :=
@@ -24,6 +31,7 @@ Section Control.
     | BTime t _ => clock s >=? t
     | BCount n _ => processed s >=? n
     | BType ty _ => etype (ev_pay e) =? ty
+    | BMetric ent op thr _ => match metric (user s) ent with Some v => cmp_op op v thr | None => false end
     end.
 
   (** [_should_pause]. *)
